@@ -52,19 +52,21 @@ func expandSubdirs(out *[]string, input []string) error {
 
 
 func (fl *FileList) removeFiles(entry lineInfo) error {
-	treeroot := fl.rootDir
-	leadLength := len(treeroot)
 	name := entry.name
 	if entry.hasWildcard {
-		names, err := globFiles(path.Join(treeroot, name), false)
-		if err != nil {
-			return err
-		}
-		for _, m := range names {
-			m = m[leadLength:]
-			if _, have := fl.entryMap[m]; have {
-				delete(fl.entryMap, m)
+		// The pattern selects members of the list (names relative to the tree root)
+		var matches []string
+		for m := range fl.entryMap {
+			matched, err := path.Match(name, m)
+			if err != nil {
+				return err
 			}
+			if matched {
+				matches = append(matches, m)
+			}
+		}
+		for _, m := range matches {
+			delete(fl.entryMap, m)
 		}
 	} else if _, have := fl.entryMap[name]; !have {
 		return fmt.Errorf("%s does not exist", name)
